@@ -167,6 +167,109 @@ theorem abs_upd (s s' : St) (hf : Frame s s') (k : Nat) (v : KSt) (n : Nat)
   unfold abs delayOn
   rw [h1, h2, hf.cfg, hf.ctx, hf.epoch, hf.refs]
 
+/-! ## a cancelled root context is forgotten (`preOp`) -/
+
+theorem dropDead_eq (s : St) : dropDead s = s ∨ (s.ctx = some 0 ∧ dropDead s = { s with ctx := none }) := by
+  unfold dropDead
+  split
+  · rename_i h; exact Or.inr ⟨h, rfl⟩
+  · exact Or.inl rfl
+
+theorem preOp_eq (s : St) (op : Op) : preOp s op = s ∨ (s.ctx = some 0 ∧ preOp s op = { s with ctx := none }) := by
+  cases op with
+  | syncKeys _ _ => exact dropDead_eq s
+  | resetRoutine _ _ => exact dropDead_eq s
+  | restartRoutine _ _ => exact dropDead_eq s
+  | resetAll _ =>
+    show (if (keyList s).isEmpty = true then s else dropDead s) = s ∨
+      (s.ctx = some 0 ∧ (if (keyList s).isEmpty = true then s else dropDead s) = { s with ctx := none })
+    split
+    · exact Or.inl rfl
+    · exact dropDead_eq s
+  | restartAll _ =>
+    show (if (keyList s).isEmpty = true then s else dropDead s) = s ∨
+      (s.ctx = some 0 ∧ (if (keyList s).isEmpty = true then s else dropDead s) = { s with ctx := none })
+    split
+    · exact Or.inl rfl
+    · exact dropDead_eq s
+  | _ => exact Or.inl rfl
+
+theorem dropDead_ctx (s : St) : (dropDead s).ctx ≠ some 0 := by
+  unfold dropDead
+  split
+  · simp
+  · rename_i h; exact h
+
+theorem abs_noCtx (s : St) (h : s.ctx = some 0) : abs { s with ctx := none } = abs s := by
+  have e : isLive s.ctx = false := by rw [h]; rfl
+  unfold abs
+  rw [e]
+  rfl
+
+theorem abs_preOp (s : St) (op : Op) : abs (preOp s op) = abs s := by
+  rcases preOp_eq s op with h | ⟨h1, h2⟩
+  · rw [h]
+  · rw [h2]; exact abs_noCtx s h1
+
+theorem preOp_keys (s : St) (op : Op) : (preOp s op).keys = s.keys := by
+  rcases preOp_eq s op with h | ⟨_, h2⟩
+  · rw [h]
+  · rw [h2]
+
+theorem preOp_fields (s : St) (op : Op) :
+    (preOp s op).gens = s.gens ∧ (preOp s op).refs = s.refs ∧ (preOp s op).calls = s.calls ∧
+    (preOp s op).runs = s.runs ∧ (preOp s op).cfg = s.cfg ∧ (preOp s op).epoch = s.epoch ∧
+    (preOp s op).nctor = s.nctor := by
+  rcases preOp_eq s op with h | ⟨_, h2⟩
+  · rw [h]; simp
+  · rw [h2]; simp
+
+theorem preOp_key (s : St) (op : Op) (k : Nat) : (preOp s op).key k = s.key k := by
+  simp [St.key, preOp_keys]
+
+/-! ## cancelling every instance (`env cancelroot`) changes nothing but the instances' flags -/
+
+/-- `s'` differs from `s` at most in `gens` -/
+structure SameBut (s s' : St) : Prop where
+  keys : s'.keys = s.keys
+  ctx : s'.ctx = s.ctx
+  cfg : s'.cfg = s.cfg
+  epoch : s'.epoch = s.epoch
+  refs : s'.refs = s.refs
+  calls : s'.calls = s.calls
+  runs : s'.runs = s.runs
+  nctor : s'.nctor = s.nctor
+  len : s'.gens.length = s.gens.length
+
+theorem SameBut.refl (s : St) : SameBut s s := ⟨rfl, rfl, rfl, rfl, rfl, rfl, rfl, rfl, rfl⟩
+theorem SameBut.trans {a b c : St} (h1 : SameBut a b) (h2 : SameBut b c) : SameBut a c :=
+  ⟨h2.keys.trans h1.keys, h2.ctx.trans h1.ctx, h2.cfg.trans h1.cfg, h2.epoch.trans h1.epoch, h2.refs.trans h1.refs,
+   h2.calls.trans h1.calls, h2.runs.trans h1.runs, h2.nctor.trans h1.nctor, h2.len.trans h1.len⟩
+
+theorem sameBut_cancelOpt (s : St) (g : Nat) (o : Option Nat) : SameBut s (cancelOpt s g o) := by
+  cases o with
+  | none => exact SameBut.refl s
+  | some i => exact ⟨rfl, rfl, rfl, rfl, rfl, rfl, rfl, rfl, by simp [cancelOpt, modInst, modG]⟩
+
+theorem foldl_sameBut (f : St → Nat → St) (hf : ∀ s i, SameBut s (f s i)) (L : List Nat) (s : St) :
+    SameBut s (L.foldl f s) := by
+  induction L generalizing s with
+  | nil => exact SameBut.refl s
+  | cons i L ih => exact (hf s i).trans (ih (f s i))
+
+theorem sameBut_cancelGen (s : St) (g : Nat) : SameBut s (cancelGen s g) :=
+  foldl_sameBut _ (fun s i => sameBut_cancelOpt s g (some i)) _ s
+
+theorem sameBut_cancelAll (s : St) : SameBut s (cancelAll s) :=
+  foldl_sameBut _ sameBut_cancelGen _ s
+
+theorem abs_sameBut {s s' : St} (h : SameBut s s') : abs s' = abs s := by
+  unfold abs delayOn St.key St.ctors
+  rw [h.keys, h.ctx, h.cfg, h.epoch, h.refs, h.nctor]
+
+theorem key_sameBut {s s' : St} (h : SameBut s s') (k : Nat) : s'.key k = s.key k := by
+  simp [St.key, h.keys]
+
 /-! ## creating records -/
 
 theorem key_newRec (s : St) (k g k' : Nat) :
